@@ -94,7 +94,8 @@ def xsd_pair(base, derived, redefine=False):
     nd = [x.replace('name="g', 'name="dg') for x in nd]
     dd = dd.replace('ref="t:g', 'ref="t:dg')
     decls = ''.join('<xs:element name="%s" type="xs:string"/>' % k for k in ('a', 'b', 'c', 'd', 'h'))
-    decls += '<xs:element name="m" type="xs:string" substitutionGroup="t:h"/>'
+    decls += '<xs:element name="mid" type="xs:string" substitutionGroup="t:h" abstract="true"/>'
+    decls += '<xs:element name="m" type="xs:string" substitutionGroup="t:mid"/>'
     return ('<xs:schema xmlns:xs="http://www.w3.org/2001/XMLSchema" targetNamespace="%s" xmlns:t="%s" '
             'elementFormDefault="qualified">%s%s%s'
             '<xs:complexType name="B">%s</xs:complexType>'
@@ -410,7 +411,8 @@ def subject_redefine(case):
         nb = []
         bb = cm.render_particle(case['base'], nb)
         decls = ''.join('<xs:element name="%s" type="xs:string"/>' % k for k in ('a', 'b', 'c', 'd', 'h'))
-        decls += '<xs:element name="m" type="xs:string" substitutionGroup="t:h"/>'
+        decls += '<xs:element name="mid" type="xs:string" substitutionGroup="t:h" abstract="true"/>'
+    decls += '<xs:element name="m" type="xs:string" substitutionGroup="t:mid"/>'
         head = ('<xs:schema xmlns:xs="http://www.w3.org/2001/XMLSchema" targetNamespace="%s" xmlns:t="%s" '
                 'elementFormDefault="qualified">' % (cm.TNS, cm.TNS))
         (d / 'base.xsd').write_text(head + decls + ''.join(nb) + '<xs:complexType name="B">%s</xs:complexType>'
